@@ -18,11 +18,11 @@ impl LintPass for OverlappingFunctionCheck {
         for node in cfg {
             // Capture the places where instructions start to be shared by
             // more than one function.
-            // NOTE: We only give an error for the first line of a shared
-            //       region (a function entry that lies inside another
-            //       function, or the first instruction of a tail that several
-            //       functions jump into), even though there may be many
-            //       overlapping instructions. This is done to not overwhelm
+            // NOTE: We only give an error where a shared region is entered
+            //       (a function entry that lies inside another function, or
+            //       an instruction of a shared tail that is reached from code
+            //       not shared by the same functions), even though there may
+            //       be many overlapping instructions. This is done to not overwhelm
             //       the user with errors.
             if node.functions().len() <= 1 {
                 continue;
@@ -31,7 +31,7 @@ impl LintPass for OverlappingFunctionCheck {
             let starts_shared_region = node
                 .prevs()
                 .iter()
-                .all(|prev| *prev.functions() != *node.functions());
+                .any(|prev| *prev.functions() != *node.functions());
             if !(is_entry || starts_shared_region) {
                 continue;
             }
